@@ -15,7 +15,7 @@ PROP = {'gen_tables': ['TransSampler'],
                  'hash/fnv of the Go standard library is the reference FNV-1a on the Go side (oracle and generator); the Lean fnv32a is compared '
                  'with it and with the real sampler\'s bucket sharing on every collide op',
                  'first/thereafter are non-negative (the property quantifies over N, M ≥ 0; uint64(negative int) is outside it)'],
- 'technique': 'Lean 4: closed form of the sampling counter (window_passed = min k N + (k-N)/M by induction over arrivals), window-boundary case analysis, key frame/collision lemmas over a UInt32 fnv32a, and an atomic-step machine whose every interleaving inside an open window is proved to hand out exactly the counter values c+1..c+k; tie: differential correspondence on (level, message, timestamp, core) sequences with an independent window oracle, exhaustive small sequences, concurrent programs under -race',
+ 'technique': 'Lean 4: closed form of the sampling counter (window_passed = min k N + (k-N)/M by induction over arrivals), window-boundary case analysis, key frame/collision lemmas over a UInt32 fnv32a, and an atomic-step machine whose every interleaving inside an open window is proved to hand out exactly the counter values c+1..c+k; tie: differential correspondence on (level, message, timestamp, core) sequences with an independent window oracle, exhaustive small sequences, concurrent programs under -race + translated source (fnv32a, counter.IncCheckReset, sampler.Check proved equal to the model)',
  'level_text': 'window_count/window_passed/allows_iff hold for all N, M, tick and arrival sequences of the model under NoOverflow; open_window_exact holds for every interleaving; the full new-window statement is partial (known finding F10: pre-epoch timestamps).',
  'level_note': 'int64 overflow of t+tick excluded by hypothesis; sync/atomic linearizability assumed; F10 is a known finding.',
 }
